@@ -293,6 +293,15 @@ func (e *sched) step(st *sState, in ssa.Instruction) {
 				st.vals[x] = v
 				return
 			}
+		case sTab:
+			// table[:k]: the first k sub-tables / rows (the same table seen through a shorter window)
+			if n, ok := e.tabLen(v); ok && !v.ptr && lo <= 0 && (hi < 0 || hi <= n) {
+				if hi >= 0 && hi < n {
+					v.lim = hi
+				}
+				st.vals[x] = v
+				return
+			}
 		}
 		st.vals[x] = sOpaque{fmt.Sprintf("slice of %T", a)}
 	case *ssa.IndexAddr:
@@ -386,6 +395,19 @@ func (e *sched) step(st *sState, in ssa.Instruction) {
 			st.vals[x] = sOpaque{"field"}
 		}
 	case *ssa.MakeSlice:
+		// a slice of concrete length: a fresh array object
+		if n, ok := constOf(e.get(st, x.Len)); ok && n.IsInt64() && n.Int64() >= 0 && n.Int64() <= 4096 {
+			if sl, isSl := x.Type().Underlying().(*types.Slice); isSl {
+				id := e.newID()
+				arr := &hArray{elems: make([]sVal, n.Int64())}
+				for i := range arr.elems {
+					arr.elems[i] = e.zeroOf(sl.Elem())
+				}
+				st.heap[id] = arr
+				st.vals[x] = sSlice{id, 0, int(n.Int64())}
+				return
+			}
+		}
 		st.vals[x] = sOpaque{"make"}
 	case *ssa.Extract:
 		t := e.get(st, x.Tuple)
@@ -1267,6 +1289,14 @@ func (e *sched) execCall(states []*sState, call *ssa.Call) []*sState {
 		for i, prm := range cal.Params {
 			st.vals[prm] = e.get(st, call.Call.Args[i])
 		}
+		// a function literal called directly: its free variables are the bindings of the closure
+		if mc, ok := call.Call.Value.(*ssa.MakeClosure); ok {
+			for i, fv := range cal.FreeVars {
+				if i < len(mc.Bindings) {
+					st.vals[fv] = e.get(st, mc.Bindings[i])
+				}
+			}
+		}
 	}
 	fr := &sFrame{fn: cal}
 	if e.followed == nil {
@@ -1305,6 +1335,9 @@ func (e *sched) builtin(st *sState, b *ssa.Builtin, call *ssa.Call) sVal {
 			return symLin(map[string]*big.Rat{"len(" + v.name + ")": big.NewRat(1, 1)})
 		case sTab:
 			if n, ok := e.tabLen(v); ok && !v.ptr {
+				if v.lim > 0 && v.lim < n {
+					n = v.lim
+				}
 				return sInt{big.NewInt(int64(n))}
 			}
 		case sPtr:
